@@ -53,7 +53,42 @@ def gen_history(seedkey: str, nsteps: int, edit_kinds=None) -> list:
     return out
 
 
-def run_worlds(ctx: Ctx, hid, config: str, worlds: list) -> dict:
+def run_raw(ctx: Ctx, hid, config: str, case: dict) -> dict:
+    """A raw corpus history: steps are {relative path: text | None}; +2 s per step."""
+    base = os.path.join(ctx.tmp, f"h{hid}")
+    shutil.rmtree(base, ignore_errors=True)
+    root = os.path.join(base, "src")
+    os.makedirs(root)
+    with open(os.path.join(root, "mypy.ini"), "w") as f:
+        f.write(case.get("ini", "[mypy]\n"))
+    args = B.CONFIGS[config] + ["--config-file", "mypy.ini"]
+    steps = []
+    for k, edits in enumerate(case["steps"]):
+        for rel, text in edits.items():
+            p = os.path.join(root, rel)
+            if text is None:
+                if os.path.exists(p):
+                    os.remove(p)
+                continue
+            os.makedirs(os.path.dirname(p), exist_ok=True)
+            with open(p, "w") as f:
+                f.write(text)
+            os.utime(p, (1_700_000_000 + 2 * k, 1_700_000_000 + 2 * k))
+        files = {}
+        for dp, _, fs in os.walk(root):
+            for fn in fs:
+                fp = os.path.join(dp, fn)
+                st = os.stat(fp)
+                files[os.path.relpath(fp, root)] = {"text": open(fp).read(), "mtime": int(st.st_mtime), "size": st.st_size}
+        warm = B.run_mypy(root, os.path.join(base, "cache"), args, targets=case["targets"], scratch=base)
+        cold = B.run_mypy(root, os.path.join(base, f"cold{k}"), args, targets=case["targets"], scratch=base)
+        shutil.rmtree(os.path.join(base, f"cold{k}"), ignore_errors=True)
+        steps.append({"edits": [{"kind": "corpus:" + case["name"]}], "files": files, "warm": warm, "cold": cold})
+    shutil.rmtree(base, ignore_errors=True)
+    return {"hid": hid, "config": config, "steps": steps, "raw": case["name"], "targets": case["targets"]}
+
+
+def run_worlds(ctx: Ctx, hid, config: str, worlds: list, targets=None) -> dict:
     """Materialise each world in turn (+2 s per step), run warm (shared cache) and cold after each."""
     base = os.path.join(ctx.tmp, f"h{hid}")
     shutil.rmtree(base, ignore_errors=True)
@@ -71,17 +106,22 @@ def run_worlds(ctx: Ctx, hid, config: str, worlds: list) -> dict:
                 p = os.path.join(dp, fn)
                 st = os.stat(p)
                 files[os.path.relpath(p, root)] = {"text": open(p).read(), "mtime": int(st.st_mtime), "size": st.st_size}
-        warm = B.run_mypy(root, os.path.join(base, "cache"), args, scratch=base)
+        tg = [t for t in (targets or []) if os.path.exists(os.path.join(root, t))] or None
+        warm = B.run_mypy(root, os.path.join(base, "cache"), args, targets=tg, scratch=base)
         colddir = os.path.join(base, f"cold{k}")
-        cold = B.run_mypy(root, colddir, args, scratch=base)
+        cold = B.run_mypy(root, colddir, args, targets=tg, scratch=base)
         shutil.rmtree(colddir, ignore_errors=True)
         steps.append({"edits": edits, "files": files, "warm": warm, "cold": cold})
     shutil.rmtree(base, ignore_errors=True)
-    return {"hid": hid, "config": config, "steps": steps}
+    return {"hid": hid, "config": config, "steps": steps, "targets": targets}
 
 
 def run_history(ctx: Ctx, hid: int, seed: int, config: str, nsteps: int, edit_kinds=None) -> dict:
-    return run_worlds(ctx, hid, config, gen_history(f"{ctx.seed}:{hid}:{seed}", nsteps, edit_kinds))
+    import random
+    worlds = gen_history(f"{ctx.seed}:{hid}:{seed}", nsteps, edit_kinds)
+    rng = random.Random(f"t:{ctx.seed}:{hid}:{seed}")
+    targets = B.entry_targets(rng, worlds[0][1]) if rng.random() < 0.5 else None
+    return run_worlds(ctx, hid, config, worlds, targets)
 
 
 def model_line(hist: dict) -> tuple[str, list[dict]] | None:
@@ -116,7 +156,12 @@ def model_line(hist: dict) -> tuple[str, list[dict]] | None:
                 if p is None:
                     return None
                 r = p[2:] if p.startswith("./") else p
-                return files.get(r)
+                if r in files:
+                    return files[r]
+                for k in files:            # modules found by import following carry absolute paths
+                    if p.endswith("/" + k):
+                        return files[k]
+                return None
             src = I(["src", sorted((m, sha(finfo(m)["text"]) if finfo(m) else "-") for m in members)])
             mt = I(["mt", sorted((m, finfo(m)["mtime"] if finfo(m) else -1) for m in members)])
             sz = I(["sz", sorted((m, finfo(m)["size"] if finfo(m) else -1) for m in members)])
@@ -130,6 +175,8 @@ def model_line(hist: dict) -> tuple[str, list[dict]] | None:
             for m in members:
                 p = paths.get(m) or ""
                 r = p[2:] if p.startswith("./") else p
+                if r not in out["files"]:
+                    r = next((k for k in out["files"] if p.endswith("/" + k) or k.endswith("/" + r)), r)
                 errs = I(["errs", out["files"].get(r, [])])
                 iface = I(["iface", cold["ifaces"][m]])
                 units.append(f"{mid(m)} {src} {mt} {sz} {iface} {errs} " + (",".join(str(mid(d)) for d in reads) or "-"))
@@ -195,21 +242,26 @@ def check_history(ctx: Ctx, hist: dict, model_out: str | None, enc) -> None:
         nfresh = len(set(B.user_modules(st["warm"].get("ifaces", {}))) - set(B.user_modules(st["warm"].get("rechecked"))))
         nstale = len(B.user_modules(st["warm"].get("rechecked")))
         nontrivial = k > 0 and nfresh > 0 and nstale > 0
+        if hist.get("raw"):
+            nontrivial = k > 0
         ctx.case((hist["hid"], cfg, k, [e.get("kind") for e in st["edits"]], sorted(st["files"])), nontrivial=nontrivial)
+        ctx.dist("targets", "entry-files" if hist.get("targets") else "directory")
         for e in st["edits"]:
             ctx.dist("edit_kind", e.get("kind", "none"))
         ctx.dist("step_shape", "fresh+stale" if nontrivial else ("all-stale" if nfresh == 0 else "all-fresh"))
         ctx.dist("config", cfg)
         if d:
             any_diff = True
-            replay = {"config": cfg, "step": k, "diff": d,
+            replay = {"config": cfg, "step": k, "diff": d, "targets": hist.get("targets"),
                       "history": [{"edits": s["edits"], "files": {p: f["text"] for p, f in s["files"].items()},
                                    "mtimes": {p: f["mtime"] for p, f in s["files"].items()}} for s in hist["steps"][:k + 1]]}
             if B.only_once_note_diff(d):
                 ctx.report({"class": "only-once-note-moves"}, f"warm run differs from cold run only in an only_once note ({cfg}, step {k})", replay)
             else:
-                ctx.report({"class": "warm-differs-from-cold", "config": cfg},
-                           f"warm run differs from cold run on the same files ({cfg}, step {k}): {d[:3]}", replay)
+                obs = {"class": "warm-differs-from-cold", "config": cfg}
+                if hist.get("raw"):
+                    obs = {"class": "warm-differs-from-cold", "corpus": hist["raw"]}
+                ctx.report(obs, f"warm run differs from cold run on the same files ({hist.get('raw') or 'generated'}, {cfg}, step {k}): {d[:3]}", replay)
     # correspondence with the model
     if model_out is None or enc is None:
         ctx.count("histories_not_encodable")
@@ -282,12 +334,19 @@ def main(ctx: Ctx) -> None:
     sjobs = [(f"s-{name}", cfgs[(i + ctx.seed) % 4], ws) for i, (name, ws) in enumerate(scripted)]
     if not ctx.quick():
         sjobs = [(f"s-{name}-{c}", c, ws) for (name, ws) in scripted for c in cfgs]
+    corpus = []
+    cdir = os.path.join(os.path.dirname(os.path.dirname(os.path.dirname(os.path.abspath(__file__)))), "corpus", "c02")
+    for fn in sorted(os.listdir(cdir)) if os.path.isdir(cdir) else []:
+        if fn.endswith(".json"):
+            corpus.append(json.load(open(os.path.join(cdir, fn))))
     with ThreadPoolExecutor(max_workers=8) as ex:
-        fs = [ex.submit(run_worlds, ctx, *j) for j in sjobs] + [ex.submit(run_history, ctx, *j) for j in jobs]
+        fs = [ex.submit(run_raw, ctx, f"c-{c['name']}-{cfg}", cfg, c) for c in corpus for cfg in cfgs]
+        fs += [ex.submit(run_worlds, ctx, *j) for j in sjobs] + [ex.submit(run_history, ctx, *j) for j in jobs]
         hists = [f.result() for f in fs]
+    ctx.coverage["corpus_histories"] = len(corpus)
     for j in sjobs:
         ctx.dist("scripted_history", j[0].split("-")[1])
-    encs = [model_line(h) for h in hists]
+    encs = [None if h.get("raw") else model_line(h) for h in hists]
     lines = [e[0] for e in encs if e is not None]
     outs = ctx.lean_driver("Driver/C02.lean", lines) if lines else []
     it = iter(outs)
